@@ -216,6 +216,14 @@ class World:
             d = decl.diff_trees(got, tree)
             if d:
                 self.fail("bystander-values-changed", "after %r packet p%d reads %s" % (self.log[-1] if self.log else None, i, d))
+            if last is not None and last[0] == "ok" and not self.c.get("_noenc"):
+                # ... and what pack() returned is the encoding of the packet's own values
+                try:
+                    want = ir.encode(self.fam, tree)
+                    if want != last[1]:
+                        self.fail("pack-is-not-the-encoding-of-its-values", "p%d.pack() = %r but its fields read %r whose encoding is %r" % (i, last[1], tree, want))
+                except (ir.EncodeError, ir.Unspecified, KeyError, TypeError):
+                    pass
             if last is not None:
                 out = self.pack_outcome(obj)
                 if out != last:
